@@ -182,7 +182,7 @@ func selfCheck() {
 		// gray8 3x3 with filter types 0,1,4 ; rgb8 2x3 with 2,3,1 ; rgba16 1x2 with 4,3
 		type img struct {
 			w, h, depth, ct int
-			raw            []byte
+			raw             []byte
 		}
 		imgs := []img{
 			{3, 3, 8, 0, []byte{0, 10, 200, 31, 1, 5, 250, 9, 4, 77, 3, 180}},
